@@ -353,6 +353,8 @@ class SimPkgLoader(importlib.abc.Loader):
         w.n_import += 1
         w.event("pkg-import", n, self.name)
         f = w.faults.take("import", n)
+        if f is None and w.pkg_faults.get(self.name) == "pkg-import-error":
+            f = {"kind": "pkg-import-error"}
         if f is not None:
             w.fired(f)
             raise ImportError("simulated import failure of %s" % self.name)
@@ -363,6 +365,8 @@ class SimPkgLoader(importlib.abc.Loader):
         w.n_getdata += 1
         w.event("get-data", n, path)
         f = w.faults.take("getdata", n)
+        if f is None and w.pkg_faults.get(self.name) == "pkg-get-data-eio":
+            f = {"kind": "pkg-get-data-eio"}
         if f is not None:
             w.fired(f)
             raise OSError(errno.EIO, "simulated get_data failure", path)
@@ -415,6 +419,8 @@ class SimWorld:
         self.probes = {}
         self.faults = Faults()
         self.pending_http_fault = None
+        self.pkg_faults = {}     # package name -> fault kind (by name, not
+        #                          by ordinal; set by the property module)
         self._reset_op()
         self._installed = False
 
